@@ -20,15 +20,39 @@
 (*                          placeholder, exactly once, after the target    *)
 (*   ChecksumSeesPrefix     every calc covers exactly the bytes before it  *)
 (*   PrimsDiscipline        the produced primitive trace satisfies PrimsOK *)
+(*                                                                         *)
+(* USED BUFFERS.  The output buffer need not be fresh: it may already hold *)
+(* bytes `pre` (an earlier message, a frame header), of which the first    *)
+(* `rd` have been consumed by a reader.  The machine starts on such a      *)
+(* buffer (PreSet, ConsumeSome) and addresses it PHYSICALLY: the remembered*)
+(* placeholder position and the back-patch are indices into the whole      *)
+(* buffer, consumed bytes included (netty ByteBuf, the Python / C++        *)
+(* buffers).  A buffer that DROPS consumed bytes (Go bytes.Buffer, Rust    *)
+(* BytesMut) is the same machine started on pre = Drop(pre, rd), rd = 0.   *)
+(* Refines then reads: the buffer ends as EncFields(.., pre): the bytes    *)
+(* before the message untouched, the length field = the target's bytes     *)
+(* wherever the message starts, a checksum = Alg over EVERY byte that      *)
+(* precedes it in the buffer (C06: "the bytes that precede it in the       *)
+(* output buffer").  Deviation switch PosFromReadable: the placeholder     *)
+(* position is taken from the READABLE byte count while the patch is an    *)
+(* absolute write - right only while nothing has been consumed.            *)
 (***************************************************************************)
 EXTENDS MCWire
 
 \* deviation switch (off in the design): measure the target from the end of the placeholder instead of from
 \* where the target begins -- right only when the target directly follows the length field
 CONSTANT MeasureFromPlaceholder
+\* used-buffer histories: the contents the output buffer may already hold; whether a reader has consumed part of it
+CONSTANTS PreSet, ConsumeSome,
+          PosFromReadable      \* deviation switch (off in the design)
 
-VARIABLES todo, wbuf, lenPos, lenW, tgtStart, patched, prims, wphase
-mvars == <<todo, wbuf, lenPos, lenW, tgtStart, patched, prims, wphase>>
+\* quick configuration of the used-buffer histories: only the option facet that matters here (byte order)
+OptSetsBO == { [le |-> le, sp |-> "", ap |-> "", padleft |-> "", padchar |-> ""] : le \in {"", "true"} }
+PreNone == {<<>>}                          \* a fresh buffer only
+PreSome == {<<>>, <<7, 8, 9, 10>>}         \* ... or one that already holds four bytes
+
+VARIABLES todo, wbuf, lenPos, lenW, tgtStart, patched, prims, wphase, pre, rd
+mvars == <<todo, wbuf, lenPos, lenW, tgtStart, patched, prims, wphase, pre, rd>>
 allvars == <<vars, mvars>>
 
 \* work items
@@ -41,14 +65,15 @@ Items(P, fs, vs, isroot) ==
   [i \in 1..Len(fs) |-> FieldItem(Res(P, fs[i]), vs[i], [fs |-> fs, vs |-> vs], isroot /\ i = LenTarget(fs))]
 
 MInit == /\ Init
-         /\ todo = <<>> /\ wbuf = <<>> /\ lenPos = 0 /\ lenW = 0 /\ tgtStart = 0 /\ patched = FALSE /\ prims = <<>>
+         /\ pre \in PreSet /\ rd \in {0} \cup (IF ConsumeSome THEN {Len(pre) \div 2, Len(pre)} ELSE {})
+         /\ todo = <<>> /\ wbuf = pre /\ lenPos = 0 /\ lenW = 0 /\ tgtStart = 0 /\ patched = FALSE /\ prims = <<>>
          /\ wphase = "idle"
 
 \* the abstract Pick / Enc steps of MCWire choose the message and compute the declarative layout
 MPick == Pick /\ UNCHANGED mvars
 MEnc == /\ Enc
         /\ todo' = Items(prog, RootOf(prog), msg, TRUE) /\ wphase' = "run"
-        /\ UNCHANGED <<wbuf, lenPos, lenW, tgtStart, patched, prims>>
+        /\ UNCHANGED <<wbuf, lenPos, lenW, tgtStart, patched, prims, pre, rd>>
 
 App(bs) == /\ wbuf' = wbuf \o bs
            /\ prims' = IF bs = <<>> THEN prims ELSE Append(prims, <<"append", Len(wbuf), bs>>)
@@ -78,7 +103,7 @@ Step ==
                         /\ App(Ord(c.le, IntBE(Len(v.b), c.sp))) /\ todo' = <<BytesItem(v.b)>> \o rest
                         /\ UNCHANGED <<lenPos, lenW, tgtStart, patched>>
                    [] f.k = "len" ->                               \* EncLenPlaceholder
-                        /\ lenPos' = Len(wbuf) + 1 /\ lenW' = Width(f.ty)
+                        /\ lenPos' = (IF PosFromReadable THEN Len(wbuf) - rd ELSE Len(wbuf)) + 1 /\ lenW' = Width(f.ty)
                         /\ App(Rep(0, Width(f.ty))) /\ todo' = rest /\ UNCHANGED <<tgtStart, patched>>
                    [] f.k = "ck" ->                                \* EncChecksum: reads the prefix written so far
                         LET w == Width(f.ty) IN
@@ -94,21 +119,30 @@ Step ==
                         /\ todo' = Items(prog, sub, v.fs, FALSE) \o (IF it.tgt THEN <<PatchItem>> ELSE <<>>) \o rest
                         /\ tgtStart' = IF it.tgt THEN (IF MeasureFromPlaceholder THEN lenPos + lenW - 1 ELSE Len(wbuf)) ELSE tgtStart
                         /\ UNCHANGED <<wbuf, prims, lenPos, lenW, patched>>
-  /\ UNCHANGED <<vars, wphase>>
+  /\ UNCHANGED <<vars, wphase, pre, rd>>
 
-Finish == wphase = "run" /\ todo = <<>> /\ wphase' = "done" /\ UNCHANGED <<vars, todo, wbuf, lenPos, lenW, tgtStart, patched, prims>>
+Finish == wphase = "run" /\ todo = <<>> /\ wphase' = "done" /\ UNCHANGED <<vars, todo, wbuf, lenPos, lenW, tgtStart, patched, prims, pre, rd>>
 
 MNext == MPick \/ MEnc \/ Step \/ Finish
 MSpec == MInit /\ [][MNext]_allvars
 
 (* ------------------------------ properties ------------------------------ *)
-Refines == wphase = "done" => wbuf = buf
+\* on a fresh buffer this is wbuf = buf (= Wire!Layout); on a used one the earlier bytes stay and count for checksums
+Refines == wphase = "done" => /\ wbuf = EncFields(prog, RootOf(prog), msg, pre)
+                              /\ (pre = <<>> => wbuf = buf)
+\* the bytes the buffer held before the encode are never touched, consumed or not
+PreUntouched == SubSeq(wbuf, 1, Len(pre)) = pre
+\* length-of is position independent: the message part differs from the fresh-buffer layout only in checksum fields
+OnlyChecksumsSeePre ==
+  wphase = "done" =>
+    \A i \in 1..Len(Segs) : Segs[i].k # "ck" =>
+       SubSeq(wbuf, Len(pre) + Segs[i].off + 1, Len(pre) + Segs[i].off + Segs[i].len) = Bytes(Segs[i])
 AppendOnlyExceptPatch ==
   [][ /\ Len(wbuf') >= Len(wbuf)
       /\ \A j \in 1..Len(wbuf) : wbuf'[j] # wbuf[j] => (j >= lenPos /\ j < lenPos + lenW /\ ~patched /\ patched') ]_allvars
 ChecksumSeesPrefix ==
   wphase = "done" => \A k \in 1..Len(prims) : prims[k][1] = "calc" =>
-       \E i \in 1..Len(Segs) : Segs[i].k = "ck" /\ Segs[i].off = prims[k][2]
+       \E i \in 1..Len(Segs) : Segs[i].k = "ck" /\ Segs[i].off + Len(pre) = prims[k][2]
 \* TraceCodec!PrimsOK on the machine's own trace
 PrimsDiscipline ==
   wphase = "done" =>
@@ -116,9 +150,9 @@ PrimsDiscipline ==
                IF ~acc.ok \/ p[1] = "calc" THEN acc
                ELSE IF p[1] = "append" THEN [ok |-> p[2] = acc.n, n |-> acc.n + Len(p[3])]
                ELSE [ok |-> /\ p[2] + Len(p[3]) <= acc.n
-                            /\ \E i \in 1..Len(Segs) : Segs[i].k = "len" /\ Segs[i].off = p[2] /\ Segs[i].len = Len(p[3]),
+                            /\ \E i \in 1..Len(Segs) : Segs[i].k = "len" /\ Segs[i].off + Len(pre) = p[2] /\ Segs[i].len = Len(p[3]),
                      n |-> acc.n],
-               [ok |-> TRUE, n |-> 0], prims) IN
+               [ok |-> TRUE, n |-> Len(pre)], prims) IN
     r.ok /\ r.n = Len(wbuf)
 \* the placeholder is patched exactly when there is a length-of field
 PatchedIffLen == wphase = "done" => (patched <=> HasField("L"))
